@@ -21,7 +21,7 @@ RULE = ("schemas with required fields (with and without defaults), schema-level 
         "are own required fields / schema validators of a disabled sub-configuration; inserted list items with a "
         "missing required field must be rejected; non-trivial = >= 1 returning call judged plus >= 1 further call (returning or raising); distinct = "
         "distinct (schema, calls)")
-REQUIRED = ("fields_with_two_registered_validators", "documents_listing_feature_flags_last", "config_types_with_validators_registered_after_make_type", "trees_with_a_section_given_as_configuration_object", "same_file_loaded_again_after_in_place_change", "feature_flags_redeclared_as_plain_booleans", "schemas_with_shared_validator_decorator", "schemas_with_sections_named_like_config_methods", "sections_shared_with_a_second_parent", "loads_with_empty_required_values", "reinsertions_of_invalidated_members", "calls_returned_judged", "calls_raised", "required_walks", "validator_log_checks", "collect_mode_compared",
+REQUIRED = ("required_fields_added_to_the_schema_after_the_configuration_was_built", "fields_with_two_registered_validators", "documents_listing_feature_flags_last", "config_types_with_validators_registered_after_make_type", "trees_with_a_section_given_as_configuration_object", "same_file_loaded_again_after_in_place_change", "feature_flags_redeclared_as_plain_booleans", "schemas_with_shared_validator_decorator", "schemas_with_sections_named_like_config_methods", "sections_shared_with_a_second_parent", "loads_with_empty_required_values", "reinsertions_of_invalidated_members", "calls_returned_judged", "calls_raised", "required_walks", "validator_log_checks", "collect_mode_compared",
             "exemption_cases_judged", "list_item_insertions_judged", "call:load_tree", "call:loads", "call:load", "call:validate",
             "flags_off_seen", "failing_validators_seen")
 ASSUMPTIONS = ["one-directional: nothing is demanded of calls that raise, except the exemption of disabled sub-configurations",
@@ -63,6 +63,7 @@ def decorate(rng, node, depth=0):
                 if rng.random() < 0.3 and ch["family"] not in ("list", "dict"):
                     # ... and a second one registered later: both count (the first may be the one that says no)
                     ch["params"]["validator2"] = "pass"
+                    ch["params"]["validators_by_one_decorator"] = rng.random() < 0.5
                     node["two_field_validators"] = True
 
 
@@ -181,6 +182,11 @@ def generate(rng, ctx):
                      all(spec.node_at(schema, ".".join(p.split(".")[:i]))["kind"] == "schema" for i in range(1, p.count(".") + 1))]
             if flags:
                 call["redeclare_flag"] = rng.choice(flags)
+        if call["call"] in ("validate", "load_tree") and rng.random() < 0.12:
+            # the schema grows after the configuration was built: a required field without default (root or section)
+            secs = [""] + [p for p, nd in spec.walk(schema) if nd["kind"] == "schema" and "[]" not in p and
+                           all(spec.node_at(schema, ".".join(p.split(".")[:i]))["kind"] == "schema" for i in range(1, p.count(".") + 2))]
+            call["grow"] = [rng.choice(secs), "zz_late_%d" % len(calls)]
         if call["call"] == "validate" and rng.random() < 0.5:
             # before validating: a section of this configuration is also assigned to a second configuration of the schema
             # (which becomes its parent), then one of its required fields is reset in place
@@ -305,6 +311,16 @@ def run(case, ctx, res):
                     res.count("feature_flags_redeclared_as_plain_booleans")
                 except Exception:
                     res.count("redeclare_not_applicable")
+        if call.get("grow"):
+            sec, key = call["grow"]
+            try:
+                owner_node = spec.node_at(root, sec) if sec else root
+                if owner_node is not None and all(ch["key"] != key for ch in owner_node["fields"]):
+                    drv.built.schema[(sec + "." if sec else "") + key] = cc.StringField(required=True)
+                    owner_node["fields"].append({"kind": "field", "key": key, "family": "str", "params": {"required": True}})
+                    res.count("required_fields_added_to_the_schema_after_the_configuration_was_built")
+            except Exception:
+                res.count("grow_not_applicable")
         if call.get("share"):
             try:
                 if twin is None:
